@@ -710,6 +710,7 @@ func TestC13(t *testing.T) {
 	c13MixedPeers(t, c)
 	c13HandlerEndOfStream(t, c)
 	c13TruncatedAfterHonest(t, c)
+	c13LateDelivery(t, c)
 	cases := c13Scenarios(thorough)
 	for i, k := range cases {
 		if !ev.Mine(i) {
